@@ -31,7 +31,7 @@ func SetupC05Conc() any {
 	return st
 }
 
-var c05Pool = []string{"/a/new", "/a/{n}/z", "/q", "/ab/q", "/{n}/q", "/*{n}"}
+var c05Pool = []string{"/s/a", "/a/new", "/a/{n}/z", "/q", "/ab/q", "/{n}/q", "/*{n}"}
 
 func serveStatus(r *fox.Router, method, path string) int {
 	w := &nullWriter{h: http.Header{}}
@@ -134,6 +134,41 @@ func HarnessC05Conc(st any) {
 		rte, _ := r.Reverse(target.Method, "h", target.Pattern)
 		sym.Assert(rte != nil, "an existing route stays routable while a sibling is inserted")
 		sym.Cover("W||R||R")
+	case 6: // Update of a route with children + write below it in one transaction || reader
+		var parent R
+		found := false
+		for _, rt := range s.set.Routes {
+			for _, other := range s.set.Routes {
+				if !found && rt.Pattern[0] == '/' && !hasWildcard(rt.Pattern) && len(other.Pattern) > len(rt.Pattern) && hasPrefixStr(other.Pattern, rt.Pattern+"/") {
+					parent, found = rt, true
+				}
+			}
+		}
+		if !found {
+			return
+		}
+		child := parent.Pattern + "/zz9"
+		var sawChild, sawMarker bool
+		sym.Go(func() {
+			_ = r.Updates(func(txn *fox.Txn) error {
+				if _, err := txn.Handle("POST", "/marker", noopHandler); err != nil {
+					return err
+				}
+				if _, err := txn.Update(parent.Method, parent.Pattern, h200); err != nil {
+					return err
+				}
+				_, err := txn.Handle(parent.Method, child, h200)
+				return err
+			})
+		})
+		sym.Go(func() {
+			sawChild = r.Has(parent.Method, child)
+			sawMarker = r.Has("POST", "/marker")
+		})
+		sym.Join()
+		sym.Assert(!sawChild || sawMarker, "a reader never sees a later write of a transaction without its earlier ones")
+		sym.Assert(r.Has(parent.Method, child) && r.Has("POST", "/marker"), "the transaction is committed")
+		sym.Cover("update+write-below||reader")
 	case 5: // aborted transaction || reader
 		var saw bool
 		sym.Go(func() {
